@@ -72,6 +72,10 @@ func checkTimeFoldOnEveryPath(p *Program, r *Result, rule string) {
 			if isMessageLogTime(p, st.Val) {
 				foldBlocks[f][st.Block()] = true
 			}
+			// x = min(x, t) / max(x, t): comparison and store in one
+			if _, ok := minMaxFold(p, st.Val, f); ok {
+				foldBlocks[f][st.Block()] = true
+			}
 		}
 	}
 	writes := callsIn(fn, func(ci ssa.CallInstruction) bool {
